@@ -322,18 +322,21 @@ Definition encode (c : cfg) (m : msg) : M (Z * msg) :=
     modw (set_nout (nout w + 1)) ;;;
     ret (nout w, mkMsg (mtype m) (wire_tags c (nout w) m)).
 
-Definition send_msg (c : cfg) (m : msg) : M unit :=
-  w <- getw ;;
-  (if st w <? ST_NCE then raise XConn
-   else if st w =? ST_NCE then
-     match mkind m with
-     | KLogon | KLogout => state_set ST_LOGON_SENT ;;; modw (set_role ROLE_INITIATOR)
-     | _ => raise XConn
-     end
-   else if (role w =? ROLE_INITIATOR) && (st w =? ST_LOGON_SENT)
-           && negb (match mkind m with KLogout => true | _ => false end)
-     then raise XConn
-   else ret tt) ;;;
+(* the state / role gates of send_msg (w = the world at entry) *)
+Definition send_gate (m : msg) (w : world) : M unit :=
+  if st w <? ST_NCE then raise XConn
+  else if st w =? ST_NCE then
+    match mkind m with
+    | KLogon | KLogout => state_set ST_LOGON_SENT ;;; modw (set_role ROLE_INITIATOR)
+    | _ => raise XConn
+    end
+  else if (role w =? ROLE_INITIATOR) && (st w =? ST_LOGON_SENT)
+          && negb (match mkind m with KLogout => true | _ => false end)
+    then raise XConn
+  else ret tt.
+
+(* TestRequest gate, encode, write, drain, journal *)
+Definition send_tail (c : cfg) (m : msg) (w : world) : M unit :=
   (match mkind m, treq w with
    | KTestReq, None => raise XConn
    | _, _ => ret tt
@@ -343,6 +346,11 @@ Definition send_msg (c : cfg) (m : msg) : M unit :=
   (if wr w1 then ret tt else raise XAttribute) ;;;      (* None.write(...) *)
   emit (Wire (snd sm)) ;;;
   persist_out (fst sm) (snd sm).
+
+Definition send_msg (c : cfg) (m : msg) : M unit :=
+  w <- getw ;;
+  send_gate m w ;;;
+  send_tail c m w.
 
 Definition send_test_req (c : cfg) (now : Z) : M unit :=
   w <- getw ;;
